@@ -570,6 +570,22 @@ def sub_rule(repo, res, tier, rule="SK-SUB"):
         parts = [p.replace(" ", "") for p in lit_for.parts]
         ok = parts == ["literal_id=0", "literal_id<nliterals", "literal_id++"]
         rec("S1:ids-increasing", ok, f"literal ids visited as (( {lit_for.header} )): increasing id = decreasing length (SORTLEN)", lit_for.line)
+        # S6: the scan covers the whole table: its bound is, in THIS function, the element count `${#ARR[@]}` of the array the loop indexes
+        # (`${#ARR}` is the length of element 0; a bound set only by a caller is read through dynamic scoping from whoever set it last)
+        mb = re.fullmatch(r"(\w+)<(\w+)", parts[1]) if len(parts) == 3 else None
+        bound_ok, bound_why = False, "loop bound not of the form id < n"
+        if mb:
+            idv, bv = mb.group(1), mb.group(2)
+            assigns = []
+            for n2, _l, _c, _f in B.walk(sub):
+                if n2.kind == "simple":
+                    for w in n2.words:
+                        if w.startswith(bv + "="):
+                            assigns.append(w[len(bv) + 1:])
+            arrs = set(re.findall(r"\$\{(\w+)\[\$" + re.escape(idv) + r"\]\}", text[text.find(lit_for.header):text.find(lit_for.header) + 1500]))
+            bound_ok = len(assigns) == 1 and re.fullmatch(r"\$\{#(\w+)\[@\]\}", assigns[0]) is not None and re.fullmatch(r"\$\{#(\w+)\[@\]\}", assigns[0]).group(1) in arrs
+            bound_why = f"bound `{bv}` is assigned {assigns or 'nowhere'} in the matcher; arrays indexed by the loop: {sorted(arrs)}"
+        rec("S6:scan-bound-is-table-size", bound_ok, bound_why, lit_for.line)
         accepts = []
         exits = []
         consumes = []
